@@ -9,6 +9,7 @@ import Driver.Clip
 import Driver.Values
 import Driver.Refs
 import Driver.BBox
+import Driver.Export
 open Driver
 
 def step (line : String) : String :=
@@ -34,6 +35,8 @@ def step (line : String) : String :=
   | "obbgrad" :: args => handleBBox "obbgrad" args
   | "obbclip" :: args => handleBBox "obbclip" args
   | "obbrect" :: args => handleBBox "obbrect" args
+  | "exportts" :: args => handleExport "exportts" args
+  | "findid" :: args => handleExport "findid" args
   | "gbox" :: args => handleBBox "gbox" args
   | "rectts" :: args => handleBBox "rectts" args
   | "abst" :: args => handleBBox "abst" args
